@@ -202,6 +202,39 @@ pub fn c11_specs(tier: Tier) -> Vec<Spec> {
         specs.push(Spec::new(true, vec![Pat::regex("(?&t)x")]).with_sub("t", "(?&s)c").with_sub("s", b));
         specs.push(Spec::new(true, vec![Pat::skip("(?&nope)"), Pat::token("q")]).with_sub("s", b));
     }
+    // bracket structure of the source text: sources that begin with an opening construct and end
+    // with a closing one without being ONE group (`(?:ab)|(?:cd)`, `(a)(b)`, `[ab]|[cd]`), sources
+    // that are exactly one group of every kind, escaped parentheses at the edges. A reference has to
+    // behave like a group around the WHOLE source whatever its first and last characters are.
+    {
+        let parts = ["(?:ab)", "(c)", "[ab]", "(?i:a)", "a", r"\(", r"\)", "(?:a|b)", "(?:)"];
+        let conns = ["|", "", "*|", "|x|"];
+        let mut bodies: Vec<String> = vec![];
+        for (i, l) in parts.iter().enumerate() {
+            for (j, r) in parts.iter().enumerate() {
+                for (k, c) in conns.iter().enumerate() {
+                    // quick tier: a third of the combinations, every part on both sides and every connector
+                    if tier == Tier::Thorough || (i + 2 * j + k) % 3 == 0 || (i == j && k < 2) {
+                        bodies.push(format!("{l}{c}{r}"));
+                    }
+                }
+            }
+        }
+        for b in ["(?:a|b)", "(a|b)", "(?i:a|b)", "(?P<n>a|b)", "((a)|b)", "(?:(?:a)|b)", "(?:a)", "(?:ab)+", "(?:a|b)?c", "c(?:a|b)", "(?u:a|b)", "(?-u:a|b)", "(?s:.|b)", "(?:a|b){2}", "(?:(?:a|b))", "(?x: a | b )"] {
+            bodies.push(b.to_string());
+        }
+        let busers = ["x(?&s)y", "(?&s)y", "x(?&s)", "(?&s)", "(?&s)+z", "(?&s)(?&s)k"];
+        for b in &bodies {
+            for u in busers {
+                for utf8 in [true, false] {
+                    specs.push(Spec::new(utf8, vec![Pat::regex(u)]).with_sub("s", b));
+                }
+                specs.push(Spec::new(true, vec![Pat::skip(u), Pat::token("q")]).with_sub("s", b));
+                specs.push(Spec::new(true, vec![Pat::regex(&u.replace("(?&s)", "(?&t)"))]).with_sub("s", b).with_sub("t", "(?:(?&s)-)|(?:(?&s)\\+)"));
+            }
+            specs.push(Spec::new(false, vec![Pat::regex("x(?&s)y")]).with_bsub("s", b.as_bytes()));
+        }
+    }
     // sources that are only balanced once they are wrapped: not patterns by themselves, their
     // alternation / group structure would escape the scoping group - must be compile errors
     for b in ["x)|(?:y", "a)(b", "a)|(b", "x))((y", "a)+(b"] {
